@@ -11,6 +11,7 @@ CONSTANTS
   MaxLen = 3
   IdxArgs <- MCIdxArgs
   NoArg = 99
+  Park = FALSE
 VIEW View
 CHECK_DEADLOCK FALSE
 INVARIANT EmitState
